@@ -525,6 +525,10 @@ func (g *FnGen) addObl(s *State, kind, name, src, where, cond string) {
 	o.Query = b.String()
 	for n, p := range g.params {
 		o.Inputs = append(o.Inputs, modelVar{Name: n, Term: p.term, Go: goTypeString(p.ty.gt)})
+		if p.ty.sort == "Str" && !o.Native {
+			// strings are an uninterpreted sort outside the native theory: the replay needs at least the length
+			o.Inputs = append(o.Inputs, modelVar{Name: n + "#len", Term: "(slen " + p.term + ")", Go: "int"})
+		}
 	}
 	sort.Slice(o.Inputs, func(i, j int) bool { return o.Inputs[i].Name < o.Inputs[j].Name })
 	g.obls = append(g.obls, o)
